@@ -1,7 +1,8 @@
 #!/bin/bash
-# usage: confirm_seeded.sh <id> <crate dir> [rustflags]   -- confirms a seeded change in its scratch worktree /tmp/wt_<id>
+# usage: confirm_seeded.sh <seeded dir name, e.g. C07 or C07b> <crate dir> [rustflags] [worktree]
+#   confirms a seeded change in its scratch worktree (default /tmp/wt_<id>; round two: /tmp/wt2_<id without b>)
 id=$1; crate=$2; flags=$3
-wt=/tmp/wt_$id
+wt=${4:-/tmp/wt_$id}
 cd $wt || exit 1
 git checkout -q -- .
 mkdir -p $wt/crates/$crate/tests
